@@ -90,6 +90,9 @@ var cur atomic.Pointer[Sched]
 
 type abortT struct{}
 
+// IsAbort reports whether a recovered panic value is the scheduler's own teardown signal.
+func IsAbort(p any) bool { _, ok := p.(abortT); return ok }
+
 // Instrumented reports whether the binary was built with the sched overlay.
 var Instrumented = false
 
@@ -258,7 +261,7 @@ func (s *Sched) Run() {
 		t.yielded = false
 		t.pred = nil
 		s.cur = t
-		if len(s.Trace) < 400 {
+		if len(s.Trace) < 3000 {
 			s.Trace = append(s.Trace, t.name+":"+t.why)
 		}
 		if !t.started {
